@@ -100,6 +100,25 @@ let () =
              let b x = x = "1" in
              Printf.printf "%s OK %s\n" id (hex_of_bytes (enc_fheader_of (n_of_dec wl) (b cs) (b ck) (b nd) (b ml) (n_of_dec pl) (n_of_dec di)))
            | _ -> Printf.printf "%s ERR badfhdr 0\n" id)
+        end else if getstr "lzblocks=" <> None then begin
+          (* multi-block model frame: lzblocks=<wlog>:<ck>  ; dict field = blocks separated by '_':
+             R<hex> | E<v>.<n> | L<litshex|->.<ll.ml.ofv;...>  (hex digits only, so '_' '.' ';' are free separators) *)
+          (match String.split_on_char ':' (match getstr "lzblocks=" with Some x -> x | None -> "") with
+           | [wl; ck] ->
+             let parse_seqs sq = List.filter_map (fun t -> match String.split_on_char '/' t with
+                 | [a; b'; c] -> Some { q_ll = n_of_dec a; q_ml = n_of_dec b'; q_ofv = n_of_dec c } | _ -> None) (String.split_on_char ';' sq) in
+             let blocks = List.filter_map (fun t ->
+                 if String.length t = 0 then None else
+                 let body = String.sub t 1 (String.length t - 1) in
+                 match t.[0] with
+                 | 'R' -> Some (PRaw (bytes_of_hex (if body = "" then "-" else body)))
+                 | 'E' -> (match String.split_on_char '.' body with [v; n] -> Some (PRle (n_of_dec v, n_of_dec n)) | _ -> None)
+                 | 'L' -> (match String.split_on_char '.' body with [l; sq] -> Some (PLz (bytes_of_hex (if l = "" then "-" else l), parse_seqs sq)) | _ -> None)
+                 | _ -> None) (String.split_on_char '_' dhex) in
+             (match lz_frame_blocks (n_of_dec wl) (ck = "1") blocks with
+              | Some (fr, content) -> Printf.printf "%s OK %s %s\n" id (hex_of_bytes content) (hex_of_bytes fr)
+              | None -> Printf.printf "%s ERR invalidparse 0\n" id)
+           | _ -> Printf.printf "%s ERR badlzblocks 0\n" id)
         end else if getstr "lzenc=" <> None then begin
           (* model-built frame from a parse: lzenc=<wlog>:<cs>:<ck>:<ll.ml.ofv;ll.ml.ofv;...>   dict field = literals hex *)
           (match String.split_on_char ':' (match getstr "lzenc=" with Some x -> x | None -> "") with
